@@ -622,10 +622,16 @@ class Inliner:
                 el_ret = self._always_returns(el) if s.get("else") is not None else False
                 th_has = any(self._contains_return_outside_lambda(x) for x in th)
                 el_has = any(self._contains_return_outside_lambda(x) for x in el)
-                if th_has and not th_ret:
-                    raise NoInline("return on some paths of a branch only")
-                if el_has and not el_ret:
-                    raise NoInline("return on some paths of a branch only")
+                if (th_has and not th_ret) or (el_has and not el_ret):
+                    # a branch that returns on some of its paths only: what follows the `if` follows each branch (a short tail is
+                    # copied into both; the copies are on exclusive paths, so declarations keep their identity)
+                    size = sum(1 for x in rest for y in walk(x) if ir.is_stmt_kind(y) or y.get("k") in ("Bin", "Call", "MCall", "OpCall"))
+                    if size > 24 or any(y.get("k") in ("Label", "Case", "Default") for x in rest for y in walk(x)):
+                        raise NoInline("return on some paths of a branch only")
+                    a, fa = self.tail(th + copy.deepcopy(rest), K, void)
+                    b, fb = self.tail(el + rest, K, void)
+                    out.append(self._if(s, a, b))
+                    return out, (fa or fb)
                 if th_ret and el_ret:
                     a, _ = self.tail(th, K, void)
                     b, _ = self.tail(el, K, void)
